@@ -263,6 +263,17 @@ def run(chk):
             elif [g for g in got2 if "@" not in g] != [w for w in want2 if "@" not in w]:
                 chk.fail("explicit-instruction-differs", "the explicit statements executed at -O0 are not the instructions the source prescribes",
                          {"source": src, "executed": got2, "prescribed": want2})
+    # ---- load() / store() between ordinary statements and in loops: judged through a twin program in which the
+    #      accumulator is a variable (tools/matrix.py `explicit`), at every level; the stack pointer is part of the verdict ----
+    import matrix, csemx, gen_c
+    for p_ in matrix.all_programs(["explicit"]):
+        for level in (0, 1, 2, 3):
+            r = hp.compile(p_.text, level)
+            if r["status"] != "ok":
+                chk.count("explicit_" + r["status"]); break
+            chk.case(key=(p_.text, level), nontrivial=True)
+            chk.count("explicit_matrix")
+            csemx.check_compiled(chk, m, p_.text, p_, r, "c18x", 1, seed=1, level=level, sig_fn=lambda kind: "explicit-statement-" + kind)
     h.close(); hp.close(); m.close()
     return chk.finish(level="proof", obligations=obligations, trusted_base=TRUSTED,
                       checker_cmd="cd /verif/lean && lake build CV.Props.C18 && lake env lean .lake/audit/C18_audit.lean",
